@@ -18,7 +18,7 @@ for d in sorted((V / "seeded").iterdir()):
     caught, noverdict = [], []
     try:
         for p in props:
-            r = subprocess.run(["/venv/bin/python", "-m", "sa.check", p], cwd=V, capture_output=True, text=True)
+            r = subprocess.run(["/venv/bin/python", "-m", "sa.check", p], cwd=V, capture_output=True, text=True, env={**__import__("os").environ, "SA_EVIDENCE_DIR": "/tmp/sa_campaign_evidence"})
             if r.returncode == 1:
                 lines = r.stdout.splitlines()
                 msg = next((lines[i + 1].strip() for i, l in enumerate(lines) if l.startswith("VIOLATION") and i + 1 < len(lines)), "")
@@ -31,7 +31,7 @@ for d in sorted((V / "seeded").iterdir()):
     meta["no_verdict"] = noverdict
     (d / "meta.json").write_text(json.dumps(meta, indent=1) + "\n")
     rows.append((d.name, meta.get("property", "?"), ", ".join(c["check"] for c in caught) or "MISSED", noverdict))
-subprocess.run(["git", "-C", str(V), "checkout", "--", "evidence"])
+__import__("shutil").rmtree("/tmp/sa_campaign_evidence", ignore_errors=True)
 out = ["# Seeded changes and the checks that report them", "",
        "Produced by independent sub-agents (given only the property text and a scratch worktree), confirmed in a scratch worktree",
        "(demo passes without / fails with the change; pinned suite unchanged), then applied to /repo one at a time by `tools/seeded_report.py`.", "",
